@@ -161,6 +161,29 @@ func WithMeta(b arrow.RecordBatch, m Meta) arrow.RecordBatch {
 	return out
 }
 
+// PointerLike returns the zero-row batch of b's schema carrying b's custom
+// metadata plus extra (an external-location or shared-memory pointer batch
+// standing in for b). b is not released.
+func PointerLike(b arrow.RecordBatch, extra Meta) arrow.RecordBatch {
+	mem := memory.NewGoAllocator()
+	cols := make([]arrow.Array, b.Schema().NumFields())
+	for i, f := range b.Schema().Fields() {
+		bl := array.NewBuilder(mem, f.Type)
+		cols[i] = bl.NewArray()
+		bl.Release()
+	}
+	m := Meta{}
+	if bm, ok := b.(arrow.RecordBatchWithMetadata); ok {
+		md := bm.Metadata()
+		for i, k := range md.Keys() {
+			m = m.Add(k, md.Values()[i])
+		}
+	}
+	m.Keys = append(m.Keys, extra.Keys...)
+	m.Vals = append(m.Vals, extra.Vals...)
+	return array.NewRecordBatchWithMetadata(b.Schema(), cols, 0, m.Arrow())
+}
+
 // EncodeStream writes batches as one complete IPC stream.
 func EncodeStream(schema *arrow.Schema, batches ...arrow.RecordBatch) []byte {
 	var buf bytes.Buffer
